@@ -55,9 +55,14 @@ fn data_chars(rep: &Rep) -> u64 {
 
 fn rep_addr(rep: &Rep, seed: u64) -> RefAddr {
     let bytes = seeded_bytes(seed, rep.id, 48);
-    let version = match rep.class.0 {
-        2 => 2 + bytes[40] % 15,
-        v => v,
+    // "2..16": the first representative of each class (the only one of the quick tier) pins the two ends
+    // of the range, 2 and 16, on two of the three program lengths (swapped between the unblinded and the
+    // blinded form); every other representative takes its version from the run seed
+    let version = match (rep.class.0, rep.class.1, rep.id / N_CLASS, rep.blinded) {
+        (2, 2, 0, false) | (2, 20, 0, true) => 2,
+        (2, 20, 0, false) | (2, 2, 0, true) => 16,
+        (2, ..) => 2 + bytes[40] % 15,
+        (v, ..) => v,
     };
     let blinder = if rep.blinded {
         let p = pool();
@@ -193,6 +198,9 @@ fn single_and_double_exhaustive(idx: u64, seed: u64, ctx: &mut Ctx) -> R {
             return Err(Failure::new(format!("representative {:?} ({}) does not parse", orig, rep_label(&rep))));
         }
         ctx.class(&format!("representative:{}", rep_label(&rep)));
+        if let RefPayload::Wit { version, .. } = &rep_addr(&rep, seed).payload {
+            ctx.class(&format!("representative-witness-version:v{}:{}", version, if rep.blinded { "blinded" } else { "unblinded" }));
+        }
         if ctx.wants_sample("representative") {
             ctx.sample("representative", || json!({"representative": rep_label(&rep), "address": orig, "data_characters": n,
                 "corruptions_enumerated": 31 * n + 961 * (n * (n - 1) / 2)}));
@@ -327,7 +335,8 @@ pub fn property() -> Property {
         id: "C17",
         rule: "single_and_double_exhaustive: representatives = {bech32 v0/20, v0/32; bech32m v1/32, v2..16 at 2, 20, 40 bytes; \
                blech32 / blech32m likewise with a pool blinding key} (quick: 12 representatives, one per class, network and \
-               letter case rotating with class and run seed; thorough: 144 = all 72 (class, network, case) combinations x 2 \
+               letter case rotating with class and run seed; the v2..16 classes use version 2, 16 and a seed-dependent version \
+               on their first representative, seed-dependent versions on the others; thorough: 144 = all 72 (class, network, case) combinations x 2 \
                payloads), payloads from the run seed. For each representative EVERY replacement of one data-part character (version character and checksum \
                included) by each of the 31 other alphabet characters and EVERY pair of such replacements is parsed with \
                from_str and parse_with_params under all three parameter sets; all four must fail. Work unit (index) = \
